@@ -146,7 +146,11 @@ def parse_macro_rules(text):
     params = []
     j = ob + 2
     while j < mcl:
-        if c.t(j) == "$":
+        if c.seq(j, "$", "(", "$") and c.seq(j + 4, ":", "tt", ")", "*") and j + 8 == mcl and not params:
+            # ($($x:tt)*): the whole argument token stream, transcribed by `$($x)*`
+            params.append("*" + c.t(j + 3))
+            j += 8
+        elif c.t(j) == "$":
             params.append(c.t(j + 1))
             if c.t(j + 2) != ":" or c.t(j + 3) != "expr":
                 raise Unsupported("macro %s: only $x:expr parameters are supported" % name)
@@ -172,6 +176,21 @@ def rule_local_macros(text, macros):
         for k in range(len(c)):
             if c.kind(k) == "id" and c.t(k) in macros and c.t(k + 1) == "!" and c.t(k + 2) in OPEN:
                 params, body = macros[c.t(k)]
+                if len(params) == 1 and params[0].startswith("*"):
+                    cl = c.close(k + 2)
+                    stream = c.text[c.end(k + 2):c.pos(cl)].strip()
+                    bc = Code(body)
+                    edits = []
+                    j = 0
+                    while j < len(bc):
+                        if bc.t(j) == "$":
+                            if not (bc.seq(j, "$", "(", "$", params[0][1:], ")", "*")):
+                                raise Unsupported("macro %s: transcriber uses $%s other than as $($%s)*" % (c.t(k), params[0][1:], params[0][1:]))
+                            edits.append((bc.pos(j), bc.end(j + 5), stream))
+                            j += 6
+                            continue
+                        j += 1
+                    return (c.pos(k), c.end(cl), apply_edits(body, edits))
                 args = split_args(c, k + 2)
                 if len(args) != len(params):
                     raise Unsupported("macro %s: arity" % c.t(k))
@@ -409,7 +428,7 @@ def rule_timeout(text):
     def finder(c):
         for k in range(len(c)):
             if c.t(k) == "timeout" and c.t(k + 1) == "(" and c.t(k - 1) not in (".", "fn", "::", "let") \
-                    and c.kind(k - 1) != "id":
+                    and (c.kind(k - 1) != "id" or c.t(k - 1) in ("match", "return", "if", "else", "in", "while", "break")):
                 args = split_args(c, k + 1)
                 if len(args) != 2:
                     continue
